@@ -14,6 +14,7 @@ MODULES = {
     "secsgem.common.protocol": ("queue", "random", "threading"),
     "secsgem.common.protocol_dispatcher": ("threading", "queue"),
     "secsgem.common.byte_queue": ("threading",),
+    "secsgem.common.state_machine": ("threading",),
     "secsgem.common.block_send_info": ("threading",),
     "secsgem.common.tcp_connection": ("threading", "time", "select"),
     "secsgem.common.tcp_server_connection": ("threading", "time", "select", "socket"),
